@@ -884,7 +884,6 @@ func DumpE1(e *Env) {
 	}
 }
 
-
 // argumentBound: (every index above the largest accepted one is rejected, the largest accepted index).
 func argumentBound(val *ssa.Function, recv *ssa.Parameter) (bool, int64) {
 	var loop *flow.CountedLoop
@@ -999,7 +998,6 @@ func argumentBoundIn(val *ssa.Function, start, stop *ssa.BasicBlock, isArg func(
 	}
 	return max >= 0 && max <= 64, max
 }
-
 
 // recordsProblem: the instruction appends to a list of problem strings - directly, or by calling a closure / method /
 // function of the package on every path of which such an append happens (a `report(...)` helper).
